@@ -33,7 +33,8 @@ RULE = ("sweep: consecutive generator states drawn through the RND function (eve
         "states, chained end-to-start, plus a bitmap over the reference cycle) - every state "
         "counts; reseed: RANDOMIZE with every int16 (thorough) / 4096 int16 (quick) and sampled "
         "single/double byte patterns and literals from varied prior states, RND(-x) over mantissa "
-        "and exponent classes; histories: random op lists (RND, RND(0), RND(x>0), RND(-x), "
+        "and exponent classes, RND(zero) for every way of writing zero (typed literals, negated zeros, "
+        "unset variables, CVS/CVD values with exponent byte 0 and all mantissa/sign patterns); histories: random op lists (RND, RND(0), RND(x>0), RND(-x), "
         "RANDOMIZE, RUN, CLEAR) run in direct mode in one session and compiled to a stored program "
         "in a second session. Non-trivial history: contains a reseed/RUN/CLEAR followed by >= 2 "
         "draws; distinct = distinct case hash.")
@@ -405,6 +406,29 @@ def check_reseed(case, res):
                 v * M if v is not None else o, s))
             _drop_shared()
             return res
+    if case['kind'] == 'rndzero':
+        # RND(zero in any encoding) repeats the last value and leaves the state alone
+        expr = 'RND(%s)' % zero_expr(case)
+        res.label('rndzero-dirty' if case.get('zb') else 'rndzero-text')
+        for k in range(2):
+            v, o = draw(sess, expr.encode())
+            if v is None:
+                bad_outcome(res, o, expr)
+                _drop_shared()
+                return res
+            if v != Fraction(s, M):
+                res.fail('rnd0.value', '%s (call %d) from state %d returned %s/2^24 instead of '
+                         'repeating %d/2^24' % (expr, k + 1, s, v * M, s))
+                return res
+        for k in range(2):
+            v, o = draw(sess)
+            s = f(s)
+            if v is None or v != Fraction(s, M):
+                res.fail('rnd0.state', 'after %s: draw %d returned %r, expected %d/2^24' % (
+                    expr, k + 1, v * M if v is not None else o, s))
+                return res
+        res.nt(True)
+        return res
     arg = case['arg']
     expr, prelude, b = arg_text(arg)
     if case['kind'] == 'randomize':
@@ -585,12 +609,27 @@ def hist_is_nt(ops):
     return False
 
 
+# every way of writing the value zero: literals of each type, negated zeros (the sign bit of a float
+# zero is set by unary minus), unset variables, and "dirty" zeros - MBF values whose exponent byte
+# is 0 are zero whatever the mantissa and sign bits hold
+ZERO_TEXTS = ['0', '0', '0!', '0#', '0%', '-0', '-0!', '-0#', '-Z!', '-Z#', '-Z%', 'Z!', 'Z#',
+              '-(0)', '0*-1', '-0*1#', '-CSNG(0)', '-CDBL(0)', '1-1', '-(1-1)']
+
+
+def zero_expr(op):
+    if op.get('zb'):
+        b = bytes.fromhex(op['zb'])
+        assert len(b) in (4, 8) and b[-1] == 0
+        return '%s(%s)' % ('CVS' if len(b) == 4 else 'CVD', chr_expr(b))
+    return op.get('z', '0')
+
+
 def expr_of_op(op):
     k = op['op']
     if k == 'rnd':
         return 'RND', ''
     if k == 'rnd0':
-        return 'RND(%s)' % op.get('z', '0'), ''
+        return 'RND(%s)' % zero_expr(op), ''
     if k == 'rndpos':
         return 'RND(%s)' % op['x'], ''
     if k == 'rndneg':
@@ -848,6 +887,35 @@ def st_double_bytes(negative=None, exact_single=None, max_e=255):
     return st.builds(lambda s, m, x: mbf.encode_parts(s, m, x, 8).hex(), sign, man, e)
 
 
+def st_dirty_zero():
+    """MBF single/double with exponent byte 0 and arbitrary mantissa/sign bits."""
+    byte = st.one_of(st.integers(0, 255), st.sampled_from([0, 0x80, 0xff, 0x7f, 1]))
+    return st.one_of(
+        st.builds(lambda a, b, c: bytes([a, b, c, 0]).hex(), byte, byte, byte),
+        st.builds(lambda bs: (bytes(bs) + b'\0').hex(), st.lists(byte, min_size=7, max_size=7)),
+    )
+
+
+def gen_zero_encodings(shard, nshards, tier, seed):
+    cases = []
+    for z in sorted(set(ZERO_TEXTS)):
+        cases.append({'z': z})
+    vals = [0x00, 0x01, 0x7f, 0x80, 0xff]
+    for a in vals:
+        for b in vals:
+            for c in vals:
+                cases.append({'zb': bytes([a, b, c, 0]).hex()})
+    for top in (0x00, 0x01, 0x7f, 0x80, 0x81, 0xff):
+        for fill in (0x00, 0xff, 0x5a):
+            for low in (0x00, 0xff):
+                cases.append({'zb': bytes([low, fill, fill, fill, fill, fill, top, 0]).hex()})
+    for i, c in enumerate(cases):
+        if i % nshards == shard:
+            for j in range(2):
+                yield dict(c, u='reseed', kind='rndzero', pre=PRE_MANTISSAS[(i + 3 * j) % 8],
+                           draws=(i + j) % 3)
+
+
 def st_randomize_arg():
     int16 = st.one_of(st.integers(-32768, 32767),
                       st.sampled_from([0, 1, -1, 255, 256, -256, 32767, -32768, 128, -128]))
@@ -886,6 +954,8 @@ def strat_reseed():
                                    'arg': a}, pre, st.integers(0, 3), st_randomize_arg()),
         st.builds(lambda p, d, a: {'u': 'reseed', 'kind': 'rndneg', 'pre': p, 'draws': d,
                                    'arg': a}, pre, st.integers(0, 3), st_rndneg_arg('any')),
+        st.builds(lambda p, d, zb: {'u': 'reseed', 'kind': 'rndzero', 'pre': p, 'draws': d,
+                                    'zb': zb}, pre, st.integers(0, 3), st_dirty_zero()),
     )
 
 
@@ -897,7 +967,9 @@ def strat_history():
         st.builds(lambda mk: {'op': 'rnd', 'mks': mk}, st.booleans()),
         st.builds(lambda mk: {'op': 'rnd', 'mks': mk}, st.booleans()),
         st.builds(lambda z, mk: {'op': 'rnd0', 'z': z, 'mks': mk},
-                  st.sampled_from(['0', '0', '0!', '0#', '0%']), st.booleans()),
+                  st.sampled_from(ZERO_TEXTS), st.booleans()),
+        st.builds(lambda zb, mk: {'op': 'rnd0', 'zb': zb, 'mks': mk}, st_dirty_zero(),
+                  st.booleans()),
         st.builds(lambda x: {'op': 'rndpos', 'x': x}, st.sampled_from(POSITIVES)),
         st.builds(lambda a: {'op': 'rndneg', 'arg': a}, st_rndneg_arg('exact')),
         st.builds(lambda a: {'op': 'randomize', 'arg': a}, st_randomize_arg()),
@@ -932,6 +1004,7 @@ def units(tier):
              examples={'quick': _scale(600), 'thorough': 20000}, strategy=strat_reseed),
         Unit('history', 'hyp', shards={'quick': 8, 'thorough': 16},
              examples={'quick': _scale(160), 'thorough': 8000}, strategy=strat_history),
+        Unit('zero-encodings', 'enum', shards=1, gen=gen_zero_encodings, exhaustive=True),
         Unit('intexpr', 'enum', shards=1, gen=gen_intexpr),
     ]
 
@@ -954,7 +1027,10 @@ REGRESSIONS = [
                           {'op': 'randomize', 'arg': {'t': 'int', 'v': 1, 'form': 'lit'}},
                           {'op': 'rnd0'}, {'op': 'rnd'}, {'op': 'rnd'}, {'op': 'clear'},
                           {'op': 'rnd'}, {'op': 'run', 'n': 3}, {'op': 'rnd', 'mks': True}]},
-    # open/proposed: integer-valued expression typed as Single changes the seed
+    # seeded change: sign test before zero test - a zero with the sign bit set must still repeat
+    {'u': 'reseed', 'kind': 'rndzero', 'pre': 0xc00000, 'draws': 1, 'z': '-Z!'},
+    {'u': 'reseed', 'kind': 'rndzero', 'pre': 0xc00000, 'draws': 0, 'zb': 'ffffff00'},
+    # integer-valued expression typed as Single: either seeding accepted (DESIGN.md 7.2)
     {'u': 'intexpr', 'text': '-2', 'v': -2, 'draws': 0},
 ]
 
